@@ -98,7 +98,7 @@ def gen(seed, tier):
                 yield {"prop": PROP, "op": "points", "d": 1, "dflt": 0, "t": t, "kind": "free",
                        "ops": [o1, o2, {"k": "get", "p": [0]}, {"k": "get", "p": [1]}, {"k": "get", "p": [2]}]}
     rng = random.Random(seed)
-    nrand = 2500 if tier == "quick" else 50000
+    nrand = 16000 if tier == "quick" else 50000
     for i in range(nrand):
         d = rng.choice([1, 2, 2, 3])
         dflt = rng.choice([0, 0, 7])
